@@ -801,9 +801,12 @@ SySucc(s, e, tags, labexp, quiet, recpre) ==
 (*               constant re-entered with another value than in the pass   *)
 (*               before (SymbolAdder, outcome "changed") or a lookup that  *)
 (*               found nothing (LookupSymbol, outcome "unknown")           *)
+(*       rg      a REG statement was executed in this pass (asmallg.c      *)
+(*               CodeREG asks for another pass when its operand is not     *)
+(*               known yet - without a lookup record)                      *)
 (*       ended   an END statement was executed (ENDOccured)                *)
 (*       entry   ... with a start address (StartAdrPresent)]               *)
-InitAU == [fz |-> FALSE, fns |-> {}, rp |-> FALSE, ended |-> FALSE, entry |-> FALSE]
+InitAU == [fz |-> FALSE, fns |-> {}, rp |-> FALSE, rg |-> FALSE, ended |-> FALSE, entry |-> FALSE]
 AuStartPass(au, pass) == IF pass = 1 THEN InitAU ELSE [InitAU EXCEPT !.fns = au.fns]
 
 \* ---- IFDEF / IFNDEF read the table (asmif.c CodeIFDEF: IsSymbolDefined || FindFunction || FoundMacroByName) -----
@@ -832,7 +835,9 @@ IfdefReadsTable(s, tags, e, c, ifpre, recpre) ==
 RepassCause(rs) == \E i \in 1..Len(rs) : \/ rs[i].k = "def" /\ ~rs[i].chg /\ rs[i].out = "changed"
                                          \/ rs[i].k = "ref" /\ rs[i].out = "unknown"
 \* (AsCore_Trace, PASSEND) Repass is only ever set in a pass, never cleared: the pass loop sees it
-PhaseErrorForcesRepass(au, e) == Claim("PhaseErrorForcesRepass", au.rp => e.repass = 1)
+PhaseErrorForcesRepass(au, e) ==
+  /\ Claim("PhaseErrorForcesRepass", au.rp => e.repass = 1)
+  /\ Claim("RepassHasCause", e.repass = 1 => (au.rp \/ au.rg))        \* (these are all the places that set Repass)
 
 \* ---- named actions for statements that used to fall under the generic rule ------------------------------------
 \* e.gk = "EMPTY"  no instruction on the line (blank, comment, label only)
@@ -872,6 +877,7 @@ AuAfter(s, e, dpre, quiet) ==
   [fz    |-> FuzzyAfter(dpre, e, s.au.fz),
    fns   |-> IF e.gk = "FUNCTION" /\ quiet /\ e.ga # <<>> THEN s.au.fns \cup {e.ga[1]} ELSE s.au.fns,
    rp    |-> s.au.rp \/ RepassCause(e.sy) \/ RepassCause(e.psy),
+   rg    |-> s.au.rg \/ (e.op = "REG" /\ s.ca.ifasm /\ s.mp.outs = <<>>),
    ended |-> s.au.ended \/ EndExecuted(e),
    entry |-> s.au.entry \/ (EndExecuted(e) /\ e.argc = 1 /\ quiet)]
 \* (AsCore_Trace / AsCore_MC, end of the pass) AsmErrPassExit: an EXPECT that is still open is reported (2150: asked of
